@@ -22,7 +22,7 @@ def hexs(s):
 
 
 def unhexs(h):
-    if h == "-" or h == "":
+    if h in ("-", "", "~"):
         return ""
     return bytes.fromhex(h).decode("utf-16-le", "surrogatepass")
 
@@ -99,7 +99,8 @@ class Ctx:
             print("KNOWN-FINDING: property=%s key=%s occurrences=%d %s"
                   % (self.pid, key, n, open_keys[key].get("what", what)))
         rc = 0
-        rdir = os.path.join(VERIF, "replays", self.pid)
+        scratch = bool(os.environ.get("VERIF_NO_EVIDENCE"))
+        rdir = os.path.join(VERIF, "replays", "_scratch", self.pid) if scratch else os.path.join(VERIF, "replays", self.pid)
         nfile = 0
         for key, items in sorted(fresh.items()):
             rc = 1
@@ -124,7 +125,7 @@ class Ctx:
             "wall_s": round(time.time() - self.t0, 2),
             "violations": sum(len(v) for v in fresh.values()),
         }
-        if not self.replay:
+        if not self.replay and not scratch:
             os.makedirs(os.path.join(VERIF, "evidence"), exist_ok=True)
             with open(os.path.join(VERIF, "evidence", self.pid + ".json"), "w") as f:
                 json.dump(ev, f, indent=1, default=str)
